@@ -43,6 +43,16 @@ MUTANTS = {
     "c10_to_excl": ("rp2.abstract_entry_set", "if result.timestamp.date() > self.__entry_set.to_date:", "if result.timestamp.date() >= self.__entry_set.to_date:", ["C10", "C09"]),
     "c10_filter_lots": ("rp2.tax_engine", "iter(cast(Iterable[InTransaction], input_data.unfiltered_in_transaction_set))", "iter(cast(Iterable[InTransaction], input_data.filtered_in_transaction_set))", ["C10"]),
     "c10_numbering_from": ("rp2.gain_loss_set", "            if gain_loss.timestamp.date() > self.to_date:\n                break\n", "            if gain_loss.timestamp.date() > self.to_date:\n                break\n            if gain_loss.timestamp.date() < self.from_date:\n                continue\n", ["C10"]),
+    "c11_8f": ("rp2.ods_parser", 'RP2Decimal(f"{value:.11f}")', 'RP2Decimal(f"{value:.8f}")', ["C11"]),
+    "c11_skip_first_row": ("rp2.ods_parser", "elif current_table_type is not None and current_table_row_count > 1:", "elif current_table_type is not None and current_table_row_count > 2:", ["C11"]),
+    "c11_art_fee_value": ("rp2.ods_parser", "                crypto_fee=transaction.crypto_fee,\n                row=configuration.get_new_artificial_id(),", "                crypto_fee=transaction.fiat_fee,\n                row=configuration.get_new_artificial_id(),", ["C11"]),
+    "c11_split_drops_fiat": ("rp2.ods_parser", "                fiat_in_with_fee=transaction.fiat_in_with_fee,\n", "", ["C11"]),
+    "c11_d9_regression": ("rp2.ods_parser", '        argument_pack.setdefault("spot_price", None)\n', "", ["C11"]),
+    "c12_no_asset_check": ("rp2.abstract_entry_set", "        if entry.asset != self.asset:", "        if False:", ["C12"]),
+    "c12_accept_neg_fee": ("rp2.configuration", "        result: RP2Decimal = cls.type_check_decimal(name, value)\n        if result < ZERO:", "        result: RP2Decimal = cls.type_check_decimal(name, value)\n        if result < ZERO and non_zero:", ["C12"]),
+    "c12_missing_end": ("rp2.ods_parser", "    if current_table_type is not None:\n        raise RP2ValueError(f\"TABLE END not found", "    if False:\n        raise RP2ValueError(f\"TABLE END not found", ["C12"]),
+    "c12_d10_regression": ("rp2.ods_parser", "if current_table_type in seen_table_types:", "if current_table_type and not unfiltered_transaction_sets[current_table_type].is_empty():", ["C12"]),
+    "c12_recv_gt_sent": ("rp2.intra_transaction", "        if self.__crypto_sent < self.__crypto_received:", "        if False:", ["C12"]),
 }
 
 
